@@ -115,7 +115,7 @@ func b01(b bool) string {
 // text prints the schema in the token format of the model driver
 func (w *wiring) text() string {
 	var sb strings.Builder
-	fmt.Fprintf(&sb, "SCH %d", len(w.Stores))
+	fmt.Fprintf(&sb, "WIRING %s SCH %d", w.Name, len(w.Stores))
 	for _, s := range w.Stores {
 		parent := s.Parent
 		if parent == "" {
@@ -668,6 +668,7 @@ func (h *harnessDb) runTx(t *hTx) string {
 	for _, e := range evs {
 		sb.WriteString(" " + e)
 	}
+	sb.WriteString(h.reads())
 	sb.WriteString(" ST")
 	for _, f := range h.facts() {
 		sb.WriteString(" " + f)
@@ -819,4 +820,45 @@ func (h *harnessDb) facts() []string {
 		}
 	}
 	return res
+}
+
+// reads observes every store through its own API: QueryIds("true"), IterateValidIds, FindById
+func (h *harnessDb) reads() string {
+	var sb strings.Builder
+	_ = h.db.View(func(tx *bbolt.Tx) error {
+		for _, def := range h.w.Stores {
+			gs := h.stores[def.Name]
+			ids, _, err := gs.QueryIds(tx, "true limit none")
+			q := make([]string, 0, len(ids))
+			for _, id := range ids {
+				q = append(q, hxs(id))
+			}
+			if err != nil {
+				q = []string{"ERR"}
+			}
+			fmt.Fprintf(&sb, " Q:%s:%s", def.Name, strings.Join(q, ","))
+			var v []string
+			for c := gs.IterateValidIds(tx, ast.BoolNodeTrue); c.IsValid(); c.Next() {
+				v = append(v, hx(c.Current()))
+			}
+			fmt.Fprintf(&sb, " V:%s:%s", def.Name, strings.Join(v, ","))
+			var l []string
+			root := def.Name
+			if def.Parent != "" {
+				root = def.Parent
+			}
+			var all []string
+			for c := h.stores[root].IterateIds(tx, ast.BoolNodeTrue); c.IsValid(); c.Next() {
+				all = append(all, string(c.Current()))
+			}
+			for _, id := range all {
+				if e, found, err := gs.FindById(tx, id); err == nil && found && e != nil {
+					l = append(l, hxs(id))
+				}
+			}
+			fmt.Fprintf(&sb, " L:%s:%s", def.Name, strings.Join(l, ","))
+		}
+		return nil
+	})
+	return sb.String()
 }
